@@ -361,6 +361,39 @@ VM_MESSAGES = ("exception: ", "unexpected end of input file stream.", "You calle
                "Note: Run with `-f stack`", "Halting...")
 
 
+def cli_full_vs_minimal(ctx, sessions, violations, tag="fullmin"):
+    """sessions: (feat, src, script text).  The real binary WITHOUT --minimal (drawn tables, source excerpts, notes - code that
+    does not run at all under --minimal) against the same session WITH it: the program's standard output and the exit status
+    must be the same in both modes (what the debugger itself says goes to stderr in both).  The minimal mode is what the
+    in-process runs and the other real-binary stages tie to the model, so this carries their verdict over to the other mode."""
+    import clicommon, os
+    exe = ctx.cli()
+    d = clicommon.fresh_dir(ctx, tag)
+    jobs = []
+    for k, (feat, src, text) in enumerate(sessions):
+        f = os.path.join(d, f"s{k}.asm")
+        with open(f, "w", encoding="utf-8") as fh:
+            fh.write(src)
+        fl = ["-f", "stack"] if feat else []
+        jobs.append(lambda f=f, fl=fl, t=text: (clicommon.run_cli(exe, ["debug", f, "--minimal"] + fl + ["--command", t], d, stdin=b"", timeout=20),
+                                                clicommon.run_cli(exe, ["debug", f] + fl + ["--command", t], d, stdin=b"", timeout=20)))
+    got = clicommon.parallel(jobs)
+    n = bad = skipped = 0
+    for (feat, src, text), ((mrc, mso, mse), (rc, so, se)) in zip(sessions, got):
+        if mrc == -9 or rc == -9:
+            skipped += 1
+            continue
+        n += 1
+        if (mrc, mso) != (rc, so):
+            bad += 1
+            if bad <= 4:
+                violations.append({"kind": "full-output-mode-differs-from-minimal", "source": src, "feature_stack": feat, "script": text,
+                                   "minimal": [mrc, mso.decode("utf-8", "replace")[-400:]], "full": [rc, so.decode("utf-8", "replace")[-400:]],
+                                   "full_stderr_tail": se.decode("utf-8", "replace")[-500:],
+                                   "note": "`lace debug --command SCRIPT` with and without --minimal: same program output and exit status required"})
+    return {"sessions": n, "skipped_nonterminating": skipped, "mismatches": bad}
+
+
 def cli_cross(ctx, specs, violations, limit=40, tag="cli", with_eval=False):
     """A sample of the sessions through the REAL `lace debug --minimal` binary built WITHOUT the lace_verif guard
     (the configuration users run): exit status, program output and debugger stderr against the model (script as text,
